@@ -446,6 +446,34 @@ def rule_serializer_flow(chk):
     chk.req(ok2, "C13.attach", "start_action:task-arm-passes-everything", chk.where(sa), good="startTask(logger, action_type, _serializers, **fields)", fail="the no-parent arm of start_action drops an argument")
 
 
+def rule_message_copies(chk):
+    """A Message never shares its contents dictionary with the caller or with messages bound from it."""
+    ctx = chk.ctx
+    init = ctx.func("_message", "Message.__init__")
+    cp = init.params[1]
+    ok = any(isinstance(n, ast.Assign) and common.is_self_attr(n.targets[0], "_contents") and common._fresh_container(n.value) and cp in unparse(n.value) for n in iter_own_nodes(init.node))
+    chk.req(ok, "C13.copy", "Message.__init__:copies-the-given-contents", chk.where(init), good="self._contents = contents.copy()", fail="Message keeps the caller's dictionary itself: later changes by either side show up in the other")
+    for q in ("Message.bind", "Message.contents", "Message.write"):
+        f = ctx.func("_message", q)
+        uses = [n for n in ast.walk(f.node) if common.is_self_attr(n, "_contents")]
+        parents = {}
+        for n in ast.walk(f.node):
+            for ch in ast.iter_child_nodes(n):
+                parents[id(ch)] = n
+        bad = []
+        for u in uses:
+            par = parents.get(id(u))
+            gp = parents.get(id(par)) if par is not None else None
+            okuse = (isinstance(par, ast.Attribute) and par.attr == "copy" and isinstance(gp, ast.Call)) or \
+                    (isinstance(par, ast.Call) and isinstance(par.func, ast.Name) and par.func.id in ("dict",) and u in par.args)
+            if not okuse:
+                bad.append(unparse(par) if par is not None else "?")
+        chk.req(uses and not bad, "C13.copy", "%s:works-on-a-copy-of-the-contents" % q, chk.where(f), good="every use of self._contents is a copy",
+                fail="%s hands out / mutates the message's own contents dictionary (%s)" % (q, bad))
+    common.rule_instance_state(chk, "C13", [("_validation", "_MessageSerializer"), ("_message", "Message")])
+    common.rule_defaults(chk, "C13", modules=("_validation", "_message", "_output"))
+
+
 def rule_field_guard(chk):
     """Justifies the receiver-type convention `field -> Field` (sa/callgraph.py)."""
     ctx = chk.ctx
@@ -465,5 +493,6 @@ def run(chk):
     rule_attach(chk)
     rule_wiring(chk)
     rule_serializer_flow(chk)
+    rule_message_copies(chk)
     rule_field_guard(chk)
     common.rule_forwarding(chk, "C13", keys=[("_action", "start_action"), ("_action", "startTask"), ("_action", "Action.child"), ("_action", "Action.continue_task"), ("_action", "Action.__init__"), ("_action", "Action.log"), ("_action", "log_message"), ("_validation", "ActionType.__call__"), ("_validation", "ActionType.as_task"), ("_validation", "MessageType.log"), ("_validation", "MessageType.__call__"), ("_message", "Message.write"), ("_message", "Message.__init__"), ("_output", "Logger.write"), ("_output", "MemoryLogger.write")])
